@@ -123,6 +123,44 @@ pub fn tokens(ev: &[Event]) -> String {
         .join(" ")
 }
 
+/// The recorded operations with WHAT they carry: every absorbed point is identified by its value
+/// among `bases1`, `bases2`, `res1`, `res2` (`None` unless these `2n + 2` points are pairwise
+/// distinct, so that the identification is unambiguous); squeezes and proof elements are numbered.
+pub fn labels(ev: &[Event], b1: &[C], b2: &[C], res1: &C, res2: &C) -> Option<String> {
+    let enc = |p: &C| <C as Hashable<RecHash>>::to_bytes(p);
+    let mut table: Vec<(Vec<u8>, String)> = vec![];
+    for (i, b) in b1.iter().enumerate() {
+        table.push((enc(b), format!("B1.{i}")));
+    }
+    for (i, b) in b2.iter().enumerate() {
+        table.push((enc(b), format!("B2.{i}")));
+    }
+    table.push((enc(res1), "RES1".into()));
+    table.push((enc(res2), "RES2".into()));
+    let mut sorted: Vec<&Vec<u8>> = table.iter().map(|t| &t.0).collect();
+    sorted.sort();
+    if sorted.windows(2).any(|w| w[0] == w[1]) {
+        return None;
+    }
+    let (mut n_sq, mut n_el) = (0usize, 0usize);
+    let out: Vec<String> = ev
+        .iter()
+        .map(|e| match (e.kind, e.ty.as_str()) {
+            ('S', _) => {
+                n_sq += 1;
+                if n_sq == 1 { "r".to_string() } else { format!("u.{}", n_sq - 2) }
+            }
+            ('C', _) => table.iter().find(|t| t.0 == e.bytes).map_or("?".to_string(), |t| t.1.clone()),
+            (_, "G") => {
+                n_el += 1;
+                format!("{}.{}", if n_el % 2 == 1 { "L" } else { "R" }, (n_el - 1) / 2)
+            }
+            _ => "s".to_string(),
+        })
+        .collect();
+    Some(out.join(" "))
+}
+
 pub fn point_str(p: &C) -> String {
     let a: G1Affine = p.to_affine();
     if bool::from(a.is_identity()) {
@@ -345,6 +383,11 @@ pub fn run_case(ctx: &mut Ctx, rng: &mut ChaCha8Rng, n: usize, class: Class, scr
     }
     let proof = t.finalize();
     ctx.case("ipa-sched", true, &format!("ipa-sched P {n}"), &tokens(&p_events));
+    // what is absorbed when: the claims must precede the batching challenge (ipa_challenges_bind_claims)
+    match labels(&p_events, &b1, &b2, &res1, &res2) {
+        Some(l) => ctx.case("ipa-labels", true, &format!("ipa-labels {n}"), &l),
+        None => ctx.count("ipa-labels:ambiguous-skipped"),
+    }
     let parsed = match parse_proof(&proof, k) {
         Some(p) => p,
         None => {
@@ -377,6 +420,9 @@ pub fn run_case(ctx: &mut Ctx, rng: &mut ChaCha8Rng, n: usize, class: Class, scr
     // ---- verifier, honest
     let vr = run_verify(&b1, &b2, &res1, &res2, &proof, script.clone());
     ctx.case("ipa-sched", true, &format!("ipa-sched V {n}"), &tokens(&vr.events));
+    if let Some(l) = labels(&vr.events, &b1, &b2, &res1, &res2) {
+        ctx.case("ipa-labels-verifier", true, &format!("ipa-labels {n}"), &l);
+    }
     if !ok(&vr.verdict) || vr.challenges != p_ch {
         ctx.oracle_fail(&format!("ipa-honest-rejected:n={n}:{tag}"), "honest IPA proof rejected, or prover and verifier derive different challenges", json!({"case": desc, "verdict": format!("{:?}", vr.verdict), "same_challenges": vr.challenges == p_ch}));
     }
@@ -389,6 +435,35 @@ pub fn run_case(ctx: &mut Ctx, rng: &mut ChaCha8Rng, n: usize, class: Class, scr
         );
     } else {
         ctx.oracle_fail(&format!("ipa-hook:n={n}"), "ipa_verify did not reach its final MSM on an honest proof", json!({"case": desc}));
+    }
+    // ---- adaptive forgery (the class of seeded change C20-1): a prover that could learn the batching
+    // challenge `r` before fixing the claims proves the FALSE claims (res1 + D, res2 − D/r) — the
+    // final check only sees res1 + r·res2. Tried with the `r` of the honest run: must be rejected,
+    // because `r` is derived from the claims (ipa_challenges_bind_claims).
+    if script.is_none() {
+        if let Some(ri) = Option::<F>::from(p_ch[0].invert()) {
+            let d = C::generator() * (F::random(&mut *rng) + F::ONE);
+            let (f1, f2) = (res1 + d, res2 - d * ri);
+            take_log();
+            take_squeezed();
+            let mut tf = RT::init();
+            let prf = mzkh::catch(|| ipa_prove::<RT, C>(&inp.w, &b1, &b2, &f1, &f2, &mut tf).map_err(|e| format!("{e:?}")));
+            take_log();
+            take_squeezed();
+            if matches!(prf, Ok(Ok(()))) {
+                let proof_f = tf.finalize();
+                let vf = run_verify(&b1, &b2, &f1, &f2, &proof_f, None);
+                if ok(&vf.verdict) {
+                    ctx.oracle_fail(
+                        &format!("ipa-adaptive-forgery:n={n}"),
+                        "ipa_verify accepts FALSE claims (res1 + D, res2 - D/r) chosen after the batching challenge r was known: r does not depend on the claims",
+                        json!({"case": desc, "r": fe_hex(&p_ch[0]), "D": point_str(&d), "forged_res1": point_str(&f1), "forged_res2": point_str(&f2)}),
+                    );
+                } else {
+                    ctx.count("ipa:adaptive-forgery-rejected");
+                }
+            }
+        }
     }
     let lr_logs = honest_lr_logs(&inp.w, &inp.d1, &inp.d2, &p_ch);
     ctx.case("ipa-verify", true, &verify_line(&inp.d1, &inp.d2, &r1, &r2, &p_ch, &lr_logs, &parsed.s), "1");
